@@ -5,7 +5,7 @@ The recorder decides nothing.  The real Jakes / Rayleigh generators are wrapped 
 generate / skip call and the running position are logged); for every public call the recorder logs integers only:
 length of the returned signal, number of samples and tap indexes of the response reported afterwards, the number
 of carriers numpy selects with the selection object, the generator calls made, the position afterwards.  Whether
-these are what the call sequence demands (block size = |selection| for ARBITRARY slices over fft sizes 8..64,
+these are what the call sequence demands (block size = |selection| for ARBITRARY slices over fft sizes 2..64,
 one generated + fft-1 skipped samples per block, n per time-domain call, length n + memory with the memory of the
 nearest-even discretisation of a RANDOM quarter-sample profile) is decided by the specification."""
 import json
@@ -108,7 +108,7 @@ def record_one(job):
     for g in gens:
         g.vlog, g.vpos = [], 0
     mem = int(ch.channel_profile.tap_delays[-1])
-    ffts = [f for f in (8, 16, 32, 64) if f > mem]
+    ffts = [2, 4, 8, 16, 32, 64]
     ops, ev = [], []
     switched, pl = False, 0
     kr, kt = users
